@@ -170,6 +170,36 @@ def apply(F, S):
             S.bad("N8", "ema-not-convex", "ExponentialMovingAverage", "EMA::next is not a convex combination of input and previous value: %s" % why, loc(fn.span))
 
 
+class _Map(Sink):
+    """forwards selected rules of C01's code under a rule id of this report"""
+
+    def __init__(self, report, mapping):
+        Sink.__init__(self, report)
+        self.mapping = mapping
+
+    def ok(self, rule, instance, **facts):
+        if rule in self.mapping:
+            Sink.ok(self, self.mapping[rule], instance, **facts)
+
+    def bad(self, rule, slug, symbol, msg, where=None, **facts):
+        if rule in self.mapping:
+            Sink.bad(self, self.mapping[rule], slug, symbol, msg, where, **facts)
+
+
+def hull_rules(F, rep):
+    """N9/N10 are corollaries of the window invariants: a mean with positive weights lies in the hull of what it averages, and the
+    least element of a window is not above its greatest.  The invariants themselves are C01's rules, run here on the current tree."""
+    import rules_c01
+    m = _Map(rep, {"I1": "N9", "I2": "N9", "I6": "N10", "I7": "N10", "L0": "N9"})
+    try:
+        rules_c01.apply(F, m)
+        from rules_c14 import mirror
+        rules_c01.extreme_unit(F, m, "Minimum", "I6")
+        rules_c01.extreme_unit(F, m, "Maximum", "I7", transform=mirror)
+    except (symex.Unsupported, KeyError, IndexError, TypeError, AttributeError) as e:
+        Sink.bad(m, "N9", "unrecognised", "window-invariants", "UNRECOGNISED idiom while establishing the window invariants: %r" % (e,))
+
+
 def run(tier, repo=None, tag="repo"):
     rep = Report("C09", tier)
     rep.rule("N1", "StandardDeviation >= 0 and never NaN: the sqrt operand is clamped non-negative on every path", 2)
@@ -180,9 +210,12 @@ def run(tier, repo=None, tag="repo"):
     rep.rule("N6", "ChandelierExit: long <= window maximum, short >= window minimum", 1)
     rep.rule("N7", "MACD / PPO: histogram = line - signal (term equality)", 2)
     rep.rule("N8", "EMA step is a convex combination (weights in [0,1], summing to 1), so it stays within the hull of its history", 1)
+    rep.rule("N9", "SMA and WMA lie within [window min, window max]: the output is a weighted mean of the window with positive weights (C01-I1/I2: sum / count, sum of i*x_i / sum of i)", 2)
+    rep.rule("N10", "Minimum <= Maximum over the same stream: each is the exact extreme of the same window (C01-I6/I7)", 2)
     F = ir.load("default", repo, tag)
     try:
         apply(F, Sink(rep))
+        hull_rules(F, rep)
     except symex.Unsupported as e:
         rep.violation("C09:unrecognised", "N1", "UNRECOGNISED idiom: %s" % e)
     rep.configs = ["default"]
@@ -193,6 +226,6 @@ def run(tier, repo=None, tag="repo"):
     rep.control("N1 sign of a signed accumulator", C.fired("may-be-negative-or-nan", "BadDiv"))
     rep.explanation = ("sign/interval inference over the fully inlined gated terms with class invariants per field path: dispersion outputs are non-negative, "
                        "band/exit offsets are non-negative after cancelling the common middle term, histogram identity by term equality, EMA convexity by "
-                       "coefficient extraction. NOT decided: SMA/WMA within [window min, window max], Minimum <= Maximum (window semantics), NaN beyond the no-overflow premise")
+                       "coefficient extraction. SMA/WMA within the window hull and Minimum <= Maximum follow from the window invariants of C01, re-established here (N9/N10). NOT decided: the tau(t) slack of those two, NaN beyond the no-overflow premise")
     rep.assumptions = ["finite inputs without overflow, low <= high, multiplier >= 0", "Welford updates are not proven non-negative: the explicit clamp is required on every path"]
     return rep
